@@ -128,9 +128,23 @@ use spl_token_2022::extension::{BaseStateWithExtensions, ExtensionType, StateWit
 
 /// Token-2022 mint, optionally with a TransferFeeConfig (basis points, maximum fee)
 pub fn create_mint_2022(l: &mut Ledger, payer: &Pubkey, mint: &Pubkey, authority: &Pubkey, decimals: u8, fee: Option<(u16, u64)>, freeze: Option<&Pubkey>) {
+    create_mint_2022_ext(l, payer, mint, authority, decimals, fee, freeze, false)
+}
+
+/// address of the account a transfer-hook program reads its extra account list from
+pub fn hook_validation_address(mint: &Pubkey) -> Pubkey {
+    Pubkey::find_program_address(&[b"extra-account-metas", mint.as_ref()], &rt::hook_program_id()).0
+}
+
+/// Token-2022 mint with optional TransferFeeConfig and optional TransferHook (simulator's hook stub, empty extra-account list)
+#[allow(clippy::too_many_arguments)]
+pub fn create_mint_2022_ext(l: &mut Ledger, payer: &Pubkey, mint: &Pubkey, authority: &Pubkey, decimals: u8, fee: Option<(u16, u64)>, freeze: Option<&Pubkey>, hook: bool) {
     let mut exts = Vec::new();
     if fee.is_some() {
         exts.push(ExtensionType::TransferFeeConfig);
+    }
+    if hook {
+        exts.push(ExtensionType::TransferHook);
     }
     let len = ExtensionType::try_calculate_account_len::<spl_token_2022::state::Mint>(&exts).unwrap();
     let mut ixs = vec![ix::sys_create_account(payer, mint, rent_min(len), len as u64, &ix::tok22())];
@@ -139,8 +153,22 @@ pub fn create_mint_2022(l: &mut Ledger, payer: &Pubkey, mint: &Pubkey, authority
             spl_token_2022::extension::transfer_fee::instruction::initialize_transfer_fee_config(&ix::tok22(), mint, Some(authority), Some(authority), bps, max).unwrap(),
         ));
     }
+    if hook {
+        ixs.push(ix::from_sol(
+            spl_token_2022::extension::transfer_hook::instruction::initialize(&ix::tok22(), mint, Some(*authority), Some(rt::hook_program_id())).unwrap(),
+        ));
+    }
     ixs.push(ix::from_sol(spl_token_2022::instruction::initialize_mint2(&ix::tok22(), mint, authority, freeze, decimals).unwrap()));
     must(l, ixs, "create_mint_2022");
+    if hook {
+        // ExtraAccountMetaList for the Execute instruction with zero extra accounts:
+        // 8-byte discriminator, u32 value length (4), u32 count (0)
+        let mut d = vec![105u8, 37, 101, 197, 75, 251, 102, 26];
+        d.extend_from_slice(&4u32.to_le_bytes());
+        d.extend_from_slice(&0u32.to_le_bytes());
+        let lam = rent_min(d.len());
+        l.put(hook_validation_address(mint), Account::new(lam, d, rt::hook_program_id()));
+    }
 }
 
 /// token account for any mint (SPL Token or Token-2022 with the extensions the mint requires)
